@@ -1,6 +1,9 @@
 package verifsim
 
-import "encoding/json"
+import (
+	"encoding/json"
+	"math/rand"
+)
 
 func jsonUnmarshal(s string, v any) {
 	if err := json.Unmarshal([]byte(s), v); err != nil {
@@ -22,3 +25,5 @@ func toI64(v any) int64 {
 	}
 	return 0
 }
+
+func newRng(seed int64) *rand.Rand { return rand.New(rand.NewSource(seed)) }
